@@ -454,7 +454,7 @@ case_alone(uint64_t idx, void *arg) {
     int type, code;
     const char *path;
     int extra;
-  } seeds[] = {{0, 1, "r", 0}, {1, 1, "r", 0}, {0, 3, "put", 1}, {0, 1, "obs", 2}, {0, 1, "big", 3}, {0, 2, "zz", 0}};
+  } seeds[] = {{0, 1, "r", 0}, {1, 1, "r", 0}, {0, 3, "put", 1}, {0, 1, "obs", 2}, {0, 1, "big", 3}, {0, 2, "zz", 0}, {0, 1, "r", 4}};
   int maxmut = 400;
   int seed = (int)(idx / (uint64_t)maxmut);
   int m = (int)(idx % (uint64_t)maxmut);
@@ -464,6 +464,11 @@ case_alone(uint64_t idx, void *arg) {
   if (seeds[seed].extra == 2)
     w_opt_uint(&w, 6, 0);
   w_opt_add(&w, 11, seeds[seed].path, strlen(seeds[seed].path));
+  if (seeds[seed].extra == 4) {
+    /* query values with every character class the library's query reconstruction treats specially */
+    w_opt_add(&w, 15, "p=/a/b?c?d", 10);
+    w_opt_add(&w, 15, "q=%41&=#;:@", 11);
+  }
   if (seeds[seed].extra == 3)
     w_opt_uint(&w, 23, 0x01);
   if (seeds[seed].extra == 1) {
@@ -938,7 +943,7 @@ main(int argc, char **argv) {
     total += st.done;
   }
   {
-    struct vxp_config c = {.space = "lone-mutated-request", .total = 6 * 400};
+    struct vxp_config c = {.space = "lone-mutated-request", .total = 7 * 400};
     vxp_enumerate(&c, case_alone, NULL, &st);
     total += st.done;
   }
@@ -980,7 +985,7 @@ main(int argc, char **argv) {
              "header variants (UDP TKL x code, TCP length forms, WS) through coap_pdu_parse + debug printer + all accessors; (B) every single-field "
              "mutation (every truncation, every byte -> 00/FF/+1/-1, every bit of the first 24 bytes, three appendices) of every message of 7 valid "
              "exchanges (GET, async, Block1, Block2, observe, TCP, WebSocket) delivered instead of / in addition to the original, then a canary; every "
-             "mutation of 6 lone requests to an idle server (malformed => no handler, <=1 error/RST reply); (C) WebSocket close with a half received "
+             "mutation of 7 lone requests (one with Uri-Query values full of reserved characters) to an idle server (malformed => no handler, <=1 error/RST reply); (C) WebSocket close with a half received "
              "frame and pending bytes, all splits; (D) all sequences of 1..5 (thorough 6) well-formed Block1 and Q-Block1 PUT requests from one raw peer with "
              "block numbers in any order from 0..11 (length 5: 0..8, thorough 0..10; length 6: 0..8), with/without M=0 on the last one, with/without a "
              "block-size change in the third, against a SINGLE_BODY server: bounds (ASan/UBSan), delivered body complete and correct, canary; (E) after the handshake, all sequences of 2 frames from an 11-frame "
